@@ -73,6 +73,10 @@ theorem gen_matches_checkGuards : Generated.C17Kinds.checkNativeFuncGuards = ["i
 theorem gen_matches_initNativeFuncs : Generated.C17Kinds.initNativeFuncsStmts = ["for name, f := range funcs { err := checkNativeFunc(name, f) if err != nil { return err } }", "names := make([]string, 0, len(funcs))", "for name := range funcs { names = append(names, name) }", "sort.Strings(names)", "p.nativeFuncs = make([]nativeFunc, len(names))", "for i, name := range names { f := funcs[name] typ := reflect.TypeOf(f) in := make([]reflect.Type, typ.NumIn()) for j := 0; j < len(in); j++ { in[j] = typ.In(j) } p.nativeFuncs[i] = nativeFunc{ isVariadic: typ.IsVariadic(), in: in, value: reflect.ValueOf(f), } }", "return nil"] ∧
     Generated.C17Kinds.setupGuard = "if p.nativeFuncs == nil { err := p.initNativeFuncs(config.Funcs) if err != nil { return err } }" := ⟨by rfl, by rfl⟩
 
+/-- the resolver indexes every key of the Funcs map in sorted order, before the first pass, without skipping names that AWK
+functions override — the same key set `initNativeFuncs` indexes (`gen_matches_initNativeFuncs`) -/
+theorem gen_matches_resolverIndex : Generated.C17Kinds.resolverIndexStmts = ["funcInfo := make(map[string]FuncInfo)", "var nativeNames []string", "for name := range config.Funcs { nativeNames = append(nativeNames, name) }", "sort.Strings(nativeNames)", "for i, name := range nativeNames { funcInfo[name] = FuncInfo{Native: true, Index: i} }", "ast.Walk(&callGraph, prog)"] := by rfl
+
 theorem gen_matches_resolver : Generated.C17Kinds.resolverNativeBranch = "{ typ := reflect.TypeOf(v.nativeFuncs[n.Name]) if typ == nil || typ.Kind() != reflect.Func { panic(ast.PosErrorf(n.Pos, \"native function %q is not a function\", n.Name)) } numParams = typ.NumIn() if typ.IsVariadic() { numParams = 1000000000 } }" ∧ Generated.C17Kinds.resolverVariadicCap = 1000000000 := ⟨rfl, rfl⟩
 
 theorem gen_matches_keywords : Generated.C17Kinds.keywords = ["BEGIN", "END", "atan2", "break", "close", "continue", "cos", "delete", "do", "else", "exit", "exp", "fflush", "for", "function", "getline", "gsub", "if", "in", "index", "int", "length", "log", "match", "next", "nextfile", "print", "printf", "rand", "return", "sin", "split", "sprintf", "sqrt", "srand", "sub", "substr", "system", "tolower", "toupper", "while"] := by rfl
@@ -383,6 +387,44 @@ theorem nil_func_would_panic : ∃ w, (callNative ⟨[.prim .int false], false, 
 /-- …and it is made: a nil function value is rejected whatever its signature -/
 theorem nil_func_rejected (name : Bytes) (s : Sig) : ∃ e, checkNativeFunc (isKeyword name) (.func s true) = (.err [], some e) :=
   bad_shape_is_error name s true (by simp)
+
+/-! ## the resolver's index and the interpreter's table agree -/
+
+theorem mem_insertBy (a x : Bytes) : ∀ l : List Bytes, x ∈ insertBy a l ↔ x = a ∨ x ∈ l
+  | [] => by simp [insertBy]
+  | b :: r => by
+    simp only [insertBy]
+    split
+    · simp
+    · simp [mem_insertBy a x r]; constructor <;> (intro h; rcases h with h | h | h <;> simp [h])
+
+theorem mem_indexTable : ∀ (l : List Bytes) (x : Bytes), x ∈ indexTable l ↔ x ∈ l
+  | [], x => by simp [indexTable]
+  | a :: l, x => by
+    have := mem_indexTable l x
+    simp only [indexTable, List.foldr_cons] at this ⊢
+    rw [mem_insertBy, this]; simp
+
+/-- With the same Funcs map on both sides, a call of a name that is in the map and not defined in AWK reaches the Go function of
+that name — whatever other entries the map has and whichever of them are overridden by AWK functions (their position in the
+sorted key list does not matter, because neither side skips them). -/
+theorem dispatch_correct (funcs awkDefined : List Bytes) (n : Bytes) (hn : n ∈ funcs) (ha : n ∉ awkDefined) :
+    dispatch funcs funcs awkDefined n = .native n := by
+  have hmem : n ∈ indexTable funcs := (mem_indexTable funcs n).2 hn
+  simp only [dispatch, ha, hn, if_true, if_false]
+  have hlt : (indexTable funcs).idxOf n < (indexTable funcs).length := List.idxOf_lt_length_of_mem hmem
+  rw [List.getElem?_eq_getElem hlt]
+  simp
+
+
+/-- an AWK-defined function of the same name takes precedence -/
+theorem dispatch_override (p r awkDefined : List Bytes) (n : Bytes) (h : n ∈ awkDefined) : dispatch p r awkDefined n = .awk n := by
+  simp [dispatch, h]
+
+/-- why both sides must use the same key set: if the resolver alone skipped the overridden name `a`, the call of `b` (index 0
+on the resolver's side) would reach `a` in the interpreter's table -/
+example : (indexTable [[97], [98]])[(indexTable [[98]]).idxOf [98]]? = some [97] := by decide
+example : dispatch [[98], [97], [99]] [[98], [97], [99]] [[97]] [99] = .native [99] := by decide
 
 /-! ## set-up histories on a reused interpreter -/
 
